@@ -67,6 +67,7 @@ def poly_reach(F, start_path):
 
 def run(ctx, R, tier):
     F = ctx.facts('default')
+    F_BODIES[0] = F
     readers = fields_of_type(F, 'command::CommandReader<')
     writers = fields_of_type(F, 'command::CommandWriter<')
     R.floor('B.C07.cover.readers', len(readers), READER_FLOOR)
@@ -164,6 +165,30 @@ def run(ctx, R, tier):
                     continue
                 problems.append('the read is skipped when `%s` takes another branch: a pending command stays unread and is applied late' % cond[:80])
                 break
+        # ... and neither may the callers: the function that holds the read is itself called on every pass of its caller
+        # (one level up, within the audio-side code: `if !removed { self.read_commands() }` drops the commands of a track
+        # whose handle is gone while its effects' and sounds' handles live on)
+        if in_osp and not problems and not b.path.endswith('::on_start_processing'):
+            for g in F.bodies:
+                if g.krate != 'kira' or g.path not in osp or g.path == b.path:
+                    continue
+                for cb_, tc in g.calls():
+                    if (callee_path(tc) or '') != b.path:
+                        continue
+                    for sw in range(g.n):
+                        tg = g.blocks[sw]['term']
+                        if tg['k'] != 'switch' or g.blocks[sw]['cleanup'] or sw == cb_ or not g.dominates(sw, cb_):
+                            continue
+                        from ..rt import dead_end
+                        excluded = [x for x in g.succ(sw) if cb_ not in g.reachable([x]) and not dead_end(g, x)]
+                        if not excluded:
+                            continue
+                        cond = describe(g, tg['op'], depth=3, at=sw)
+                        if (cond.startswith('discr(') and ('spatial_data' in cond or 'std::iter::Iterator>::next(' in cond)):
+                            continue
+                        problems.append('%s calls %s only when `%s` takes one branch: on the other the pending command stays unread'
+                                        % (g.path, b.path.split('::')[-1], cond[:80]))
+                        break
         t = b.blocks[bb]['term']
         cp = callee_path(t)
         if cp == 'command::CommandReader::<T>::read':
@@ -232,10 +257,19 @@ def run(ctx, R, tier):
     first(F, R)
     once(F, R)
     write_unconditional(F, R)
+    # commands of different kinds do not interfere (the clock's reset does not undo a start): the C05 rule
+    from .c05 import clock_rules
+    clock_rules(F, R)
+    pickup_order(F, R)
+    # every effect, sound and child track of a track is given its on_start_processing (where their own command readers are
+    # polled) on every path: the C16 fan-out rule, which covers on_start_processing
+    from .c16 import cover as fanout_cover
+    fanout_cover(F, R)
     from ..witness import run_witnesses
     run_witnesses(R, 'C07')
 
 
+F_BODIES = [None]
 PREDICATES = ('eq', 'ne', 'lt', 'le', 'gt', 'ge', 'partial_cmp', 'cmp', 'is_some', 'is_none', 'is_zero', 'is_empty', 'clone', 'deref',
               'as_ref', 'borrow', 'fmt')
 
@@ -294,6 +328,20 @@ def payload_always_used(b, dl, some_block, some_side):
                 exits.add(y)
         if b.blocks[x]['term']['k'] == 'return':
             exits.add(x)
+    # ... and only once: the same handler is not invoked a second time with the value on the same path (seek_by twice
+    # seeks twice as far)
+    by_callee = {}
+    for x in uses:
+        t = b.blocks[x]['term']
+        if t['k'] in ('call', 'tailcall'):
+            cpx = callee_path(t) or ''
+            if cpx and F_BODIES[0] is not None and F_BODIES[0].body(cpx) is not None and F_BODIES[0].body(cpx).krate == 'kira':
+                by_callee.setdefault(cpx, []).append(x)
+    for cpx, xs in by_callee.items():
+        for x in xs:
+            for y in xs:
+                if x != y and y in b.reach_after(x) and not b.in_loop(x):
+                    return 'a command that arrived is applied twice: %s is called again with the value on the same path' % cpx
     if not must_pass(b, [some_block], exits, uses):
         return ('a command that arrived can be dropped: on the Some side some path reaches the code after it without handing '
                 'the value to anything (a handler that skips a command it judges redundant has still consumed it)')
@@ -565,3 +613,37 @@ def once(F, R):
         R.check(len(a) == 1 and len(p) == 1 and order_ok(pr, a, p) and not pr.in_loop(a[0]), 'B.C07.once', 'cpal-callback',
                 'the cpal data callback does not call on_start_processing exactly once before process',
                 detail='on_start_processing ≺ process, once each')
+
+
+def pickup_order(F, R, rule='B.C07.pickup-order', which=('renderer', 'mixer')):
+    """The audio thread drains its new-resource queues in the reverse of the order in which the game can create things
+    that refer to each other: a sound, sub-track or effect parameter may name a clock, modulator, listener or send track
+    that was created just before it, so the queue of the dependents is drained FIRST - whatever is then found in it had
+    its dependencies pushed earlier, and their queues are drained afterwards in the same callback.  (Drained the other
+    way round, a dependent can be picked up one callback before the thing it refers to: a sound linked to a modulator
+    plays a buffer at its default value, a track plays a buffer without its send.)"""
+    from ..rules import order_ok
+    if 'renderer' in which:
+        b = F.body('backend::renderer::Renderer::on_start_processing')
+        if R.check(b is not None, rule, 'anchor:renderer', 'Renderer::on_start_processing not found'):
+            mx = [x for x, t in b.calls() if (callee_path(t) or '') == 'backend::resources::mixer::Mixer::on_start_processing']
+            for dep in ('clocks::Clocks', 'listeners::Listeners', 'modulators::Modulators'):
+                dx = [x for x, t in b.calls() if (callee_path(t) or '') == 'backend::resources::%s::on_start_processing' % dep]
+                R.check(len(mx) == 1 and len(dx) == 1 and order_ok(b, mx, dx), rule, 'renderer:mixer-before-' + dep.split('::')[0],
+                        'Renderer::on_start_processing does not let the mixer pick up new sounds and tracks before the %s are picked up: '
+                        'a sound or track could be seen one callback before the %s it is linked to' % (dep.split('::')[0], dep.split('::')[0][:-1]),
+                        detail='mixer.on_start_processing ≺ %s.on_start_processing' % dep.split('::')[0], where=b.file)
+    if 'mixer' in which:
+        b = F.body('backend::resources::mixer::Mixer::on_start_processing')
+        if R.check(b is not None, rule, 'anchor:mixer', 'Mixer::on_start_processing not found'):
+            from ..rules import self_field_of_call
+            ra = {}
+            for x, t in b.calls():
+                if (callee_path(t) or '').endswith('ResourceStorage::<T>::remove_and_add'):
+                    f = (self_field_of_call(b, t, 0) or '').split('.')[-1]
+                    ra.setdefault(f, []).append(x)
+            ok = len(ra.get('sub_tracks', [])) == 1 and len(ra.get('send_tracks', [])) == 1 and order_ok(b, ra['sub_tracks'], ra['send_tracks'])
+            R.check(ok, rule, 'mixer:sub-tracks-before-send-tracks',
+                    'Mixer::on_start_processing does not pick up new sub-tracks before new send tracks: a track could be seen one '
+                    'callback before the send track it routes to (that callback is rendered without the send)',
+                    detail='sub_tracks.remove_and_add ≺ send_tracks.remove_and_add', where=b.file)
